@@ -277,6 +277,16 @@ func (g *engineGen) plan() *PlanSpec {
 	}
 	ps.Post = g.group(pc, g.PCheckBad, false)
 	ps.Deferred = g.group(pc, g.PCheckBad, false)
+	if g.Overruns {
+		// some sequence actions outlive a short timeout on their first call (the engine abandons the call: a
+		// retryable timeout error); the plugin returns as soon as its context is cancelled
+		ps.eachAction(func(a *ActSpec, check bool) {
+			if !check && g.r.IntN(4) == 0 {
+				a.TimeoutMs = 3 + g.r.IntN(4)
+				a.Script = append([]Outcome{{Resp: "good", Err: "none", Overrun: true}}, a.Script...)
+			}
+		})
+	}
 	return ps
 }
 
